@@ -29,14 +29,14 @@ DOTU = (False, True)
 def c14(L, maxc, wL, wN):
     runs = []
     for u in DOTU:
-        runs.append({"harness": "vxH14Read", "args": [B(u), str(L), str(maxc)], "files": F("c14"),
+        runs.append({"harness": "vxH14Read", "args": [B(u), str(L), str(maxc)], "files": F("c14_data"),
                      "reach": ["ok", "at-or-beyond-eof", "hugeoffset", "toolarge"] + (["inside"] if L > 0 else []),
                      "bounds": f"H14.srv read, dotu={B(u)}: file of exactly {L} symbolic bytes, offset any 64-bit value, count any 32-bit value < 2^32-24, msize symbolic in [24, {24+maxc}] (so served counts are 0..{maxc})"})
-        runs.append({"harness": "vxH14Write", "args": [B(u), str(wL), str(wN)], "files": F("c14"),
+        runs.append({"harness": "vxH14Write", "args": [B(u), str(wL), str(wN)], "files": F("c14_data"),
                      "reach": ["ok", "content-checked", "write-error", "toolarge"],
                      "bounds": f"H14.srv write, dotu={B(u)}: old content {wL} symbolic bytes, {wN} symbolic data bytes (count == len(data)), offset any 64-bit value (content compared where offset+{wN} <= 16), open mode any with write access, msize symbolic in [24, {24+wN+1}]"})
         if wN > 1:
-            runs.append({"harness": "vxH14Write", "args": [B(u), str(wL), "0"], "files": F("c14"), "reach": ["ok"],
+            runs.append({"harness": "vxH14Write", "args": [B(u), str(wL), "0"], "files": F("c14_data"), "reach": ["ok"],
                          "bounds": f"H14.srv write of 0 bytes, dotu={B(u)}"})
     return runs
 w("C14", {
@@ -51,11 +51,11 @@ w("C14", {
 def c15(kmax, T, snaps):
     runs = []
     for u in DOTU:
-        runs.append({"harness": "vxH15Window", "args": [B(u), str(kmax), str(T), "false"], "files": F("c15"),
+        runs.append({"harness": "vxH15Window", "args": [B(u), str(kmax), str(T), "false"], "files": F("c15_dirread"),
                      "reach": ["rread", "too-small", "empty-at-end"],
                      "bounds": f"H15.window, dotu={B(u)}: snapshot of 1..{kmax} records with symbolic end offsets (strictly increasing, total {T} bytes, symbolic content), offset = any record boundary > 0, count any value 0..{T+2}"})
         for (k, nl) in snaps:
-            runs.append({"harness": "vxH15Snap", "args": [B(u), str(k), str(nl)], "files": F("c15"), "conc_cap": 100 * k + 56,
+            runs.append({"harness": "vxH15Snap", "args": [B(u), str(k), str(nl)], "files": F("c15_dirread"), "conc_cap": 100 * k + 56,
                          "reach": ["rread", "too-small", "whole-directory"],
                          "bounds": f"H15.snap, dotu={B(u)}: offset-0 read of a model directory with 0..{k} entries (file/dir/symlink each, names of 1..{nl} symbolic bytes, symbolic perm/size/mtime/inode), stale previous snapshot, count any value 0..{100*k}"})
     return runs
@@ -72,12 +72,12 @@ w("C15", {
 def c16(nmax, namelens):
     runs = []
     for u in DOTU:
-        runs.append({"harness": "vxH16Walk", "args": [B(u), str(nmax)], "files": F("c16"), "reach": ["complete", "partial", "error", "dotdot-above-root"],
+        runs.append({"harness": "vxH16Walk", "args": [B(u), str(nmax)], "files": F("c16_walk"), "reach": ["complete", "partial", "error", "dotdot-above-root"],
                      "bounds": f"H16.walk, dotu={B(u)}: tree of depth 3 (9 entries: dirs, files, a symlink) each existing symbolically, 0..{nmax} elements from {{a, b, .., 'c d', e-acute}}, newfid = fid or fresh, start at depth 0 or 1"})
         for nl in namelens:
-            runs.append({"harness": "vxH16Meta", "args": [B(u), str(nl)], "files": F("c16"), "reach": ["ok"],
+            runs.append({"harness": "vxH16Meta", "args": [B(u), str(nl)], "files": F("c16_walk"), "reach": ["ok"],
                          "bounds": f"H16.meta, dotu={B(u)}: dir2Qid/dir2QidType/dir2Npmode/dir2Dir on a FileInfo with symbolic mode (all 32 bits), st_mode, size >= 0, mtime (32 bit), inode, rdev; name of {nl} symbolic bytes without '/'"})
-            runs.append({"harness": "vxH16Stat", "args": [B(u), str(nl)], "files": F("c16"), "reach": ["ok"],
+            runs.append({"harness": "vxH16Stat", "args": [B(u), str(nl)], "files": F("c16_walk"), "reach": ["ok"],
                          "bounds": f"H16.meta via Tstat, dotu={B(u)}: file/dir/symlink with symbolic non-type mode bits, size, mtime, inode; name of {nl} symbolic bytes; Rstat fields and the wire record (independent decoder)"})
     return runs
 w("C16", {
@@ -96,13 +96,13 @@ def c17(faults, namelens):
         for nl in namelens:
             for c in range(5):
                 reach = ["rcreate", "rerror"] if (u or c in (0, 1, 4)) else ["rerror"]
-                runs.append({"harness": "vxH17Create", "args": [B(u), str(c), str(faults), str(nl)], "files": F("c17"), "reach": reach,
+                runs.append({"harness": "vxH17Create", "args": [B(u), str(c), str(faults), str(nl)], "files": F("c17_mutate"), "reach": reach,
                              "bounds": f"H17.create {cls[c]}, dotu={B(u)}: perm any 32-bit value of that class, mode any 8-bit value, name {nl} symbolic byte(s) without '/' (may hit an existing file/dir), <= {faults} injected failure(s) with symbolic errno 1..4095"})
-        runs.append({"harness": "vxH17Write", "args": [B(u), str(faults), "2"], "files": F("c17"), "reach": ["rwrite", "rerror"],
+        runs.append({"harness": "vxH17Write", "args": [B(u), str(faults), "2"], "files": F("c17_mutate"), "reach": ["rwrite", "rerror"],
                      "bounds": f"H17.write, dotu={B(u)}: 2 data bytes, any offset, <= {faults} injected failure(s)"})
-        runs.append({"harness": "vxH17Remove", "args": [B(u), str(faults)], "files": F("c17"), "reach": ["rremove", "rerror"],
+        runs.append({"harness": "vxH17Remove", "args": [B(u), str(faults)], "files": F("c17_mutate"), "reach": ["rremove", "rerror"],
                      "bounds": f"H17.remove, dotu={B(u)}: file / empty dir / non-empty dir / symlink, fid open or not, <= {faults} injected failure(s)"})
-        runs.append({"harness": "vxH17Wstat", "args": [B(u), str(faults)], "files": F("c17"), "reach": ["rwstat", "rerror"],
+        runs.append({"harness": "vxH17Wstat", "args": [B(u), str(faults)], "files": F("c17_mutate"), "reach": ["rwstat", "rerror"],
                      "bounds": f"H17.wstat, dotu={B(u)}: mode, length, mtime, atime any value (incl. the don't-touch sentinels), name in {{'', 'n', '/n'}}, ids any (dotu) / uid name in {{'', 'u1', unknown}}, <= {faults} injected failure(s)"})
     return runs
 w("C17", {
@@ -120,7 +120,7 @@ def c18(plan):
     runs = []
     for (op, u, L, alpha) in plan:
         al = "{. / a}" if alpha == 3 else "{. / a b}"
-        runs.append({"harness": "vxH18Confine", "args": [B(u), str(op), str(L), str(alpha), "false"], "files": F("c18"), "reach": ["served", "refused"],
+        runs.append({"harness": "vxH18Confine", "args": [B(u), str(op), str(L), str(alpha), "false"], "files": F("c18_confine"), "reach": ["served", "refused"],
                      "bounds": f"H18.confine {OPS[op]}, dotu={B(u)}: every string of length 0..{L} over {al}" + (" for each of 2 elements" if op == 2 else "") +
                                ("; fid at /r, /r/a, /r/a/a or /r/a/.." if op in (1, 2, 3) else "") + ("; file/dir/symlink/hard link" if op == 3 else "") +
                                ("; renamed object at depth 1..3" if op == 4 else "")})
